@@ -9,7 +9,7 @@ from props import clientreq_lib as L
 MODEL = "clientreq"
 MODULE = "Model.ClientReq"
 THEOREMS = ["C11_timer_at_issue", "C11_timer_released", "C11_bound", "C11_bound_any", "C11_timer_registered", "C11_timer_never_rearmed", "C11_reply_first", "C11_issue_to_resolution", "C11_late_reply_inert",
-            "C11_brokerclients_inv"]
+            "C11_same_id_refused", "C11_timed_out_id_reserved", "C11_timer_at_reissue", "C11_brokerclients_inv"]
 WHICH = ("C11",)
 
 CFG0 = {"timeout": 5000, "dot": True, "mode": 0, "corr0": 0, "hosts": [1]}
@@ -37,6 +37,22 @@ def corpus():
     # a broker-agnostic operation timing out on a known broker moves on to the next one, then to the bootstrap hosts
     out.append((nodot, [up, ("op", 1, True), ("ok", 0), ("timer", 0), ("ok", 1), ("timer", 1), ("bootok", 0), ("timer", 2),
                         ("bootlost", 0)]))
+    # the same correlation id again (fetch_api_versions' retries): refused while unanswered and after the timeout (tombstone);
+    # the late reply clears the tombstone; then the id is accepted, gets its own timer and its own reply (Example same_id_again)
+    out.append((nodot, [up, ("send", 1, True, -1), ("ok", 0), ("resend", 0, True, -1), ("timer", 0), ("resend", 0, True, -1),
+                        ("reply", 0, 1, [7]), ("resend", 0, True, 30000), ("reply", 0, 1, [9])]))
+    # the seeded shape: R1 times out, another request is in flight, the id is re-issued, the late reply to R1 arrives, then the
+    # replies to the other request and (were it accepted) to the retry
+    out.append((nodot, [up, ("send", 1, True, -1), ("ok", 0), ("tick", 2.5), ("send", 1, True, -1), ("timer", 0), ("resend", 0, True, -1),
+                        ("reply", 0, 1, [1]), ("reply", 0, 2, [2]), ("reply", 0, 1, [3]), ("timer", 1)]))
+    # with disconnect_on_timeout: the tombstone lasts until the connection is reported lost; then the id is free again
+    out.append((CFG0, [up, ("send", 1, True, -1), ("ok", 0), ("timer", 0), ("resend", 0, True, -1), ("lost", 0), ("resend", 0, True, -1),
+                       ("ok", 0), ("reply", 0, 1, [4])]))
+    # re-issue of a request that was never written (timed out while connecting: no tombstone), of a no-reply request, to a
+    # broker client retired by a refresh
+    out.append((nodot, [up, ("send", 1, True, -1), ("timer", 0), ("resend", 0, True, -1), ("ok", 0), ("reply", 0, 1, [])]))
+    out.append((nodot, [up, ("send", 1, False, -1), ("ok", 0), ("resend", 0, True, -1), ("reply", 0, 1, [8]), ("resend", 1, False, -1)]))
+    out.append((nodot, [up, ("send", 1, True, -1), ("ok", 0), ("update", [(2, 6)], True), ("resend", 0, True, -1), ("lost", 0)]))
     # correlation id wrap-around
     out.append((dict(CFG0, corr0=2 ** 31 - 2), [up, ("send", 1, True, -1), ("send", 1, True, -1), ("ok", 0),
                                                 ("reply", 0, 0, [5]), ("reply", 0, 2 ** 31 - 1, [6])]))
@@ -44,7 +60,7 @@ def corpus():
 
 
 def small_alphabet():
-    return [("send", 1, True, -1), ("send", 1, False, -1), ("send", 1, True, 30000), ("cancelreq", 0),
+    return [("send", 1, True, -1), ("send", 1, False, -1), ("send", 1, True, 30000), ("cancelreq", 0), ("resend", 0, True, -1),
             ("ok", 0), ("fail", 0), ("lost", 0), ("reply", 0, 1, [1]), ("reply", 0, 2, []), ("timer", None), ("close",)]
 
 
@@ -202,10 +218,10 @@ def run(ck):
     if thorough:
         ck.coqchk(["AV.Props.C11"])
     ck.cov["rule"] = ("corpus of hand-written histories + seeded state-aware generator (random.Random(VERIF_SEED)) over the event alphabet of "
-                      "Model/ClientReq.v (requests with/without reply and min_timeout, caller cancels, broker-agnostic operations, "
+                      "Model/ClientReq.v (requests with/without reply and min_timeout, the same correlation id issued again, caller cancels, broker-agnostic operations, "
                       "broker table refreshes, close, connect ok/fail, loss, replies incl. late/unknown ids, DelayedCalls fired in deadline "
                       "order incl. simultaneous deadlines, bootstrap connections) with random timeout / disconnect_on_timeout / shuffle "
-                      "permutation / first correlation id (incl. wrap-around) + every sequence of enabled events over an 11-event "
+                      "permutation / first correlation id (incl. wrap-around) + every sequence of enabled events over a 12-event "
                       "alphabet up to the stated depth.  A case is non-trivial if a request timer was armed; distinct = distinct case lines.")
     ck.assumptions += [
         "hand-written Gallina model Model/ClientReq.v stands for afkak/client.py:1028-1229, 897-987, 368-392, 468-527 composed with Model/BrokerClient.v "
